@@ -10,7 +10,8 @@ CONSTANT MaxOps
 
 VARIABLES hist, nops
 
-IsOp(e) == e.ev \in {"build", "drop_barrier", "wait", "drop_handle", "trig", "poll"}
+IsOp(e) == \/ e.ev \in {"build", "drop_barrier", "wait", "drop_handle", "poll"}
+           \/ (e.ev = "trig" /\ ~e.unwind)      \* the guard's trigger during unwinding is produced by the code
 
 Done == cur = 0 /\ nops = MaxOps
 
